@@ -67,6 +67,7 @@ OPTS = {
     "server_replay_nopop": [False, False, False, True],
     "server_replay_extra": EXTRA,
     "server_replay_kill_extra": [False, True],
+    "server_replay_refresh": [True, True, False],
 }
 HASH_OPTS = ["server_replay_ignore_content", "server_replay_ignore_host", "server_replay_ignore_port",
              "server_replay_ignore_params", "server_replay_ignore_payload_params", "server_replay_use_headers"]
@@ -129,7 +130,9 @@ _rec = st.tuples(_who, st.sampled_from([True, True, True, True, True, False]))  
 
 _opt_op = st.sampled_from([("opt", k, v) for k in sorted(OPTS) for v in OPTS[k]])
 _hash_opt_op = st.sampled_from([("opt", k, v) for k in HASH_OPTS for v in OPTS[k]])
-_req_op = st.tuples(st.just("req"), _who)
+# third element: what happens to the response the request was answered with afterwards (downstream addons / the user
+# may edit it; it belongs to that flow): 0 nothing, 1 body+status+header edited, 2 headers cleared
+_req_op = st.tuples(st.just("req"), _who, st.sampled_from([0, 0, 1, 1, 2]))
 _misc_op = st.one_of(st.tuples(st.just("clear")),
                       st.tuples(st.just("load"), st.lists(_rec, min_size=1, max_size=4)),
                       st.tuples(st.just("count")),
@@ -263,6 +266,21 @@ def build_request(d):
     return r
 
 
+REC_TIME = 946684800.0  # 2000-01-01 00:00:00 GMT
+REC_HEADERS = [(b"Date", b"Sat, 01 Jan 2000 00:00:00 GMT"), (b"Expires", b"Sat, 01 Jan 2000 01:00:00 GMT"),
+               (b"X-Rec", b"yes")]
+
+
+def parse_date(v):
+    import email.utils
+    if not v:
+        return None
+    try:
+        return email.utils.parsedate_to_datetime(v).timestamp()
+    except (TypeError, ValueError):
+        return None
+
+
 def diff_class(a, b):
     """names of the key components in which two reference keys differ (for bucketing)"""
     names = sorted(k for k in set(a) | set(b) if a.get(k) != b.get(k))
@@ -284,6 +302,7 @@ def check_case(case, ctx):
     sp = serverplayback.ServerPlayback()
     counter = [0]
     nontrivial = False
+    replays = {}  # recording id -> what earlier replays of it looked like
 
     def make_recs(specs):
         flows, model = [], []
@@ -291,7 +310,10 @@ def check_case(case, ctx):
             d = describe(case, who)
             rid = counter[0]
             counter[0] += 1
-            resp = http.Response.make(200, b"rec-%d" % rid) if has_resp else False
+            resp = False
+            if has_resp:
+                resp = http.Response.make(200, b"rec-%d" % rid, REC_HEADERS)
+                resp.timestamp_start = resp.timestamp_end = REC_TIME  # recorded long ago: refreshing shifts by decades
             f = tflow.tflow(req=build_request(d), resp=resp)
             flows.append(f)
             model.append({"id": rid, "d": d, "resp": bool(has_resp)})
@@ -365,6 +387,42 @@ def check_case(case, ctx):
                                          % (exp["id"], served, [r["id"] for r in cands]))
                         elif f.is_replay != "response":
                             ctx.fail("served-not-marked-replay", repr(f.is_replay))
+                        if served is not None:
+                            # the replay is the *recording* (refreshed relative to the recording when the option is
+                            # set), whatever happened to responses served earlier
+                            nth = replays.setdefault(served, [])
+                            cls_ = "first" if not nth else "again-after-edit" if nth[-1]["edited"] else "again"
+                            r_ = f.response
+                            date = parse_date(r_.headers.get("date"))
+                            exp_ = parse_date(r_.headers.get("expires"))
+                            if r_.status_code != 200 or r_.headers.get("x-rec") != "yes" or "x-edited" in r_.headers:
+                                ctx.fail("replay-differs-from-recording:%s" % cls_,
+                                         "recording %d served with status %r headers %r" % (served, r_.status_code, list(r_.headers.fields)))
+                            elif date is None or exp_ is None or abs((exp_ - date) - 3600) > 2:
+                                ctx.fail("replay-dates-inconsistent:%s" % cls_, "Date=%r Expires=%r" % (r_.headers.get("date"), r_.headers.get("expires")))
+                            elif not opts.get("server_replay_refresh", True):
+                                if date != REC_TIME:
+                                    ctx.fail("replay-refreshed-although-disabled:%s" % cls_, repr(r_.headers.get("date")))
+                            else:
+                                if date < REC_TIME + 86400:
+                                    ctx.fail("replay-not-refreshed:%s" % cls_, repr(r_.headers.get("date")))
+                                prev = [x["date"] for x in nth if x["refresh"]]
+                                if prev and abs(date - prev[0]) > 86400:
+                                    ctx.fail("replay-refreshed-cumulatively:%s" % cls_,
+                                             "recording %d: Date %r on this replay, %r on the first one"
+                                             % (served, date, prev[0]))
+                            if reuse and nth:
+                                nontrivial = True
+                            ctx.cls("replay %s" % cls_)
+                            edit = op[2] if len(op) > 2 else 0
+                            nth.append({"date": date, "refresh": opts.get("server_replay_refresh", True), "edited": bool(edit)})
+                            if edit == 1:
+                                f.response.content = b"edited downstream"
+                                f.response.status_code = 599
+                                f.response.headers["x-edited"] = "1"
+                                f.response.headers["date"] = "Thu, 01 Jan 1970 00:00:00 GMT"
+                            elif edit == 2:
+                                f.response.headers.clear()
                         if served is not None and not reuse:
                             recs[:] = [r for r in recs if r["id"] != served]
                     else:
